@@ -97,12 +97,13 @@ def sweep_keys(fam, d):
             if tok in ("t", "skipped"):
                 continue
             c = cls_of(tok)
-            if path == "stream" and c != "leak":
+            if kind.startswith("den") and c == "accepted" and tok == "A" and n >= trailing_empty_offset(kind, img):
+                # the missing tail is the unread trailing empty level (C09 finding density/trailing-empty-level-not-restored): same cause on every path
+                key = "%s/%s/prefix/trailing-empty-levels/accepted" % (fam, path)
+            elif path == "stream" and c != "leak":
                 # a truncated stream that is not rejected: whatever follows (garbage accepted, allocation from a garbage
                 # count, a getter dividing by a garbage zero) has this one cause
                 key = "%s/stream/prefix/stream-state-not-checked" % fam
-            elif kind.startswith("den") and c == "accepted" and tok == "A" and n >= trailing_empty_offset(kind, img):
-                key = "%s/%s/prefix/trailing-empty-levels/accepted" % (fam, path)
             else:
                 key = "%s/%s/prefix/%s/%s" % (fam, path, region(kind, img, n), c)
             if key not in seen:
